@@ -82,7 +82,9 @@ def handle_backup(args):
         if not backup_man.get_backup(args.backup_name):
             raise HedFileError("BackupDoesNotExist", f"Backup {args.backup_name} does not exist. "
                                f"Please run_remodel_backup first", "")
-        backup_man.restore_backup(args.backup_name, args.task_names, verbose=args.verbose)
+        # '*' stands for every task (see parse_tasks): restore everything rather than files named 'task-*'.
+        restore_tasks = [] if '*' in args.task_names else args.task_names
+        backup_man.restore_backup(args.backup_name, restore_tasks, verbose=args.verbose)
         backup_name = args.backup_name
     return backup_name
 
